@@ -425,6 +425,10 @@ def stmt_programs(rng: random.Random, n: int):
             items.append(dict(name=f"bare;{k}", text=text, exports=[("a", "int32_t")], vkey="bare"))
     for nm, text in opname_local_texts():
         items.append(dict(name=f"opname;{nm}", text=text, exports=[(nm, "int32_t")], vkey="opname"))
+    # constant conditions of if statements: non-zero selects the then-arm (even, negative, wide, folded, sizeof values)
+    for k, c in enumerate(["2", "-2", "(6 - 2)", "0x10", "sizeof(RuuV)", "0x100000000LL", "0", "1", "(~(1 < 2))", "(0x80000000 > 0)", "(1 - 1)", "0x8000000000000000ULL"]):
+        items.append(dict(name=f"constif;{k}", text=f"{{ int32_t a = RsV; if ({c}) {{ a = a + 1; }} else {{ a = a - 1; }} if ({c}) ReV = 7; for (i = 0; i < 2; i++) {{ if ({c}) {{ a += 2; }} }} RddV = a; }}",
+                          exports=[("a", "int32_t")], vkey="constif"))
     g = G(rng, avoid=("stmtexpr", "const_cond", "suffix"))
     for i in range(n):
         text, ex = g.program(depth=rng.choice([2, 3, 4]), nstmts=(2, 6), types=["int32_t", "uint32_t", "int64_t", "uint64_t", "int32_t", "uint8_t", "int16_t"])
